@@ -11,8 +11,10 @@ package main
 //                   XMT.StateAccShape.accessLists, against which the access programs of XMT.StateAcc are
 //                   proved (every solo trace of a model method is a sublist of its row, rows are covered).
 // Groups:
-//   s3wit  the four witness schedules of the proved negations (Props/C13: setChannel_not_linearizable,
-//          setChannel_off_no_linearization_point, tag_not_linearizable, ready_not_linearizable) replayed on
+//   s3wit  the four witness schedules (Props/C13: setChannel_not_linearizable,
+//          setChannel_off_no_linearization_point - open findings; orig_tag_not_linearizable,
+//          orig_ready_not_linearizable - repaired: on the current code these two schedules must now give a
+//          sequential outcome, repaired_tag_same_schedule / repaired_ready_same_schedule) replayed on
 //          the real code under the cooperative scheduler; model-compared (`acc`, `lin`); the real
 //          outcome is checked against every sequential order run on the real code -> known findings.
 //   s3lin  random programs over ALL methods under random schedules: model-compared verdict of
